@@ -38,6 +38,7 @@ import (
 	"github.com/ElrondNetwork/elrond-go/testscommon/dblookupext"
 	"github.com/ElrondNetwork/elrond-go/testscommon/genericMocks"
 
+	"verif/internal/triegen"
 	"verif/internal/vk"
 )
 
@@ -401,8 +402,12 @@ var CounterAddr = func() []byte { a := bytes.Repeat([]byte{0x77}, 32); a[0] = 0x
 // Codes are the code blobs accounts may carry
 var Codes = []string{"codeA", "codeBB", "codeCCC"}
 
-// StorKeys / StorVals are small on purpose: slots go v1 -> v2 -> v1, so node hashes recur across blocks
-var StorKeys = []string{"k0", "k1", "k2", "ka", "kab", "q"}
+// CoreStorKeys is the fixed part of every world's storage-key universe: suffix families (k, x||k, y||x||k: the trie
+// path of a key is its REVERSED nibble string, so the value of "g" sits in the terminator slot - child 16 - of the
+// branch node on the path of "og", "dog", "xdog"), single-byte keys and plain short keys. Every world adds
+// triegen.Pool keys (mixed lengths, more suffix families, one-nibble neighbours). The value set (StorVals) is small
+// on purpose: slots go v1 -> v2 -> v1, so node hashes recur across blocks.
+var CoreStorKeys = []string{"g", "og", "dog", "xdog", "b", "ab", "kab", "q", "k0", "k1"}
 var StorVals = []string{"v0", "v1", "longer-value-2"}
 
 // World is the chain: real state + model copies
@@ -418,6 +423,81 @@ type World struct {
 	// slot deletion / flip-flop / restore, and every written slot value is unique
 	Monotone bool
 	uniq     int
+
+	keys      []string // storage-key universe of this world (CoreStorKeys + triegen.Pool)
+	shortKeys []string // the keys that are a proper suffix of another key of the universe
+	relatives map[string][]string
+}
+
+// KeyName renders a storage key: as text when printable, else in hex
+func KeyName(k string) string {
+	for i := 0; i < len(k); i++ {
+		if k[i] < 0x21 || k[i] > 0x7e {
+			return fmt.Sprintf("0x%x", k)
+		}
+	}
+	return k
+}
+
+// initKeys builds the storage-key universe from the case PRNG
+func (w *World) initKeys(rng *vk.Rand) {
+	seen := map[string]bool{}
+	for _, k := range CoreStorKeys {
+		if !seen[k] {
+			seen[k] = true
+			w.keys = append(w.keys, k)
+		}
+	}
+	for _, k := range triegen.Pool(rng, 10) {
+		if len(k) == 0 || seen[string(k)] {
+			continue
+		}
+		seen[string(k)] = true
+		w.keys = append(w.keys, string(k))
+	}
+	w.relatives = map[string][]string{}
+	isShort := map[string]bool{}
+	for _, a := range w.keys {
+		for _, b := range w.keys {
+			if len(a) < len(b) && strings.HasSuffix(b, a) {
+				// a is a proper suffix of b: a's leaf hangs in the terminator slot of a branch on b's path
+				w.relatives[a] = append(w.relatives[a], b)
+				w.relatives[b] = append(w.relatives[b], a)
+				isShort[a] = true
+			}
+		}
+	}
+	for _, k := range w.keys {
+		if isShort[k] {
+			w.shortKeys = append(w.shortKeys, k)
+		}
+	}
+}
+
+// pickKey chooses the slot to write for an account: often a suffix relative of a key the account already has
+// (so that both members of a suffix pair live in the same data trie), often one of the short keys, else any key
+func (w *World) pickKey(rng *vk.Rand, m *Acct) string {
+	if len(m.Stor) > 0 && rng.Chance(1, 2) {
+		have := make([]string, 0, len(m.Stor))
+		for k := range m.Stor {
+			have = append(have, k)
+		}
+		sort.Strings(have)
+		var cands []string
+		for _, k := range have {
+			cands = append(cands, w.relatives[k]...)
+			if len(w.relatives[k]) > 0 && len(k) <= 2 {
+				cands = append(cands, k) // update the short member itself
+			}
+		}
+		if len(cands) > 0 {
+			return cands[rng.Intn(len(cands))]
+		}
+	}
+	if len(w.shortKeys) > 0 && rng.Chance(1, 2) {
+		return w.shortKeys[rng.Intn(len(w.shortKeys))]
+	}
+	return w.keys[rng.Intn(len(w.keys))]
 }
 
 // NewWorld creates an empty chain; the first Commit creates the genesis-like block 0
@@ -464,6 +544,9 @@ func (w *World) writeSlot(addr []byte, m *Acct, k, v string) error {
 // extra mutation may put a storage slot back to the value it has in that older block, so that node hashes of
 // older states are re-created by newer blocks (node-level revisits).
 func (w *World) Commit(rng *vk.Rand, initial bool, restore *Block) (*Block, error) {
+	if w.keys == nil {
+		w.initKeys(rng)
+	}
 	adb := w.Env.Adb
 	nb := cloneAccts(w.cur)
 	var desc []string
@@ -538,7 +621,13 @@ func (w *World) Commit(rng *vk.Rand, initial bool, restore *Block) (*Block, erro
 			nw = rng.Range(1, 2)
 		}
 		for x := 0; x < nw; x++ {
-			k := StorKeys[rng.Intn(len(StorKeys))]
+			k := w.pickKey(rng, m)
+			for _, rel := range w.relatives[k] {
+				if _, ok := m.Stor[rel]; ok && len(rel) > len(k) {
+					w.Counts["slot_write_to_key_in_terminator_slot_of_existing_longer_key"]++
+					break
+				}
+			}
 			v := StorVals[rng.Intn(len(StorVals))]
 			if rng.Chance(1, 4) && !initial {
 				v = ""
@@ -561,7 +650,7 @@ func (w *World) Commit(rng *vk.Rand, initial bool, restore *Block) (*Block, erro
 				m.Stor[k] = v
 				w.Counts["slot_write"]++
 			}
-			d += fmt.Sprintf(" %s=%q", k, v)
+			d += fmt.Sprintf(" %s=%q", KeyName(k), v)
 		}
 		if err = adb.SaveAccount(ua); err != nil {
 			return nil, err
@@ -602,7 +691,7 @@ func (w *World) Commit(rng *vk.Rand, initial bool, restore *Block) (*Block, erro
 			if err = w.writeSlot(a, m, k, old); err != nil {
 				return nil, err
 			}
-			desc = append(desc, fmt.Sprintf("A%d flipflop %s %q->%q->%q", ai, k, old, tmp, old))
+			desc = append(desc, fmt.Sprintf("A%d flipflop %s %q->%q->%q", ai, KeyName(k), old, tmp, old))
 			w.Counts["flipflop"]++
 		}
 	}
@@ -636,7 +725,7 @@ func (w *World) Commit(rng *vk.Rand, initial bool, restore *Block) (*Block, erro
 			if err = w.writeSlot(Addrs[cd.ai], nb[string(Addrs[cd.ai])], cd.k, cd.v); err != nil {
 				return nil, err
 			}
-			desc = append(desc, fmt.Sprintf("A%d restore %s=%q (as at height %d)", cd.ai, cd.k, cd.v, restore.Height))
+			desc = append(desc, fmt.Sprintf("A%d restore %s=%q (as at height %d)", cd.ai, KeyName(cd.k), cd.v, restore.Height))
 			w.Counts["slot_restore_old_value"]++
 		}
 	}
